@@ -129,6 +129,135 @@ def Env.get (e : Env) (k : String) : Option String :=
 def envMerge (env o : Env) : Env :=
   env ++ o.filter (fun kv => (Env.get env kv.1).isNone)
 
+/-- `m[k] = v` on a `map[string]string` -/
+def envSet (k v : String) : Env → Env
+  | [] => [(k, v)]
+  | (k', v') :: r => if k = k' then (k, v) :: r else (k', v') :: envSet k v r
+
+/-- `for k, v := range env { envMap[k] = v }` -/
+def envOverride (acc env : Env) : Env := env.foldl (fun m kv => envSet kv.1 kv.2 m) acc
+
+/-! ## `dotenv.GetEnvFromFile` (dotenv/env.go)
+
+The file system and the parser of one file (`ParseWithLookup`) are parameters; what is modelled is the loop: every
+name is made absolute, must exist and be a regular file, is read and parsed with a lookup that asks the *current
+environment first* and then the variables of the files read so far; the variables of a file replace those of
+earlier files.  `filepath.Abs` fails only when the process has no working directory (not modelled). -/
+
+inductive StatR where
+  | missing   -- `fs.ErrNotExist` / `ENOTDIR`
+  | other     -- any other error of `os.Stat`
+  | dir
+  | file
+deriving Repr, BEq, DecidableEq
+
+structure EnvWorld (C : Type) where
+  /-- `filepath.Abs` -/
+  abs : String → String
+  /-- `os.Stat` of an absolute path -/
+  stat : String → StatR
+  /-- `os.ReadFile`; an error is a class -/
+  read : String → Out C
+  /-- `ParseWithLookup(content, lookup)`; errors are wrapped in "failed to read …" (the class is the parser's) -/
+  parse : C → (String → Option String) → Out Env
+
+/-- the lookup function handed to `ParseWithLookup`: `currentEnv[k]` if set, else `envMap[k]` -/
+def envLookup (cur acc : Env) : String → Option String := fun k =>
+  match Env.get cur k with
+  | some v => some v
+  | none => Env.get acc k
+
+/-- the loop of `GetEnvFromFile`; `all` is the whole `filenames` argument (the loop body looks at its length) -/
+def getEnvLoop {C} (E : EnvWorld C) (cur : Env) (all : List String) : List String → Env → Out Env
+  | [], acc => .ok acc
+  | f :: rest, acc =>
+    let p := E.abs f
+    match E.stat p with
+    | .missing => .err "envNotFound"
+    | .other => .err "envStat"
+    | .dir => if all.length = 0 then .ok acc else .err "isDir"
+    | .file =>
+      match E.read p with
+      | .err e => .err e
+      | .panic s => .panic s
+      | .ok content =>
+        match E.parse content (envLookup cur acc) with
+        | .ok env => getEnvLoop E cur all rest (envOverride acc env)
+        | .err e => .err e
+        | .panic s => .panic s
+
+/-- `dotenv.GetEnvFromFile(currentEnv, filenames)` -/
+def getEnvFromFile {C} (E : EnvWorld C) (cur : Env) (files : List String) : Out Env :=
+  getEnvLoop E cur files files []
+
+/-! ## `loader.Options`, `Options.clone()` and the options of the included load
+
+One field per field of the Go struct (`Props/C06Source.lean`: the field names are the regenerated ones).  The four
+fields that are not flags, strings or string lists (`Interpolate`, `ResourceLoaders`, `KnownExtensions`, `Listeners`)
+are opaque identities: `clone` copies the reference. -/
+
+structure Opts where
+  skipValidation : Bool := false
+  skipInterpolation : Bool := false
+  skipNormalization : Bool := false
+  resolvePaths : Bool := false
+  convertWindowsPaths : Bool := false
+  skipConsistencyCheck : Bool := false
+  skipExtends : Bool := false
+  skipInclude : Bool := false
+  skipResolveEnvironment : Bool := false
+  skipDefaultValues : Bool := false
+  interpolate : Nat := 0
+  discardEnvFiles : Bool := false
+  projectName : String := ""
+  projectNameImperativelySet : Bool := false
+  profiles : List String := []
+  resourceLoaders : Nat := 0
+  knownExtensions : Nat := 0
+  listeners : Nat := 0
+deriving Repr, BEq, DecidableEq
+
+/-- the Go names of the fields of `Opts`, in order -/
+def Opts.fieldNames : List String :=
+  ["SkipValidation", "SkipInterpolation", "SkipNormalization", "ResolvePaths", "ConvertWindowsPaths",
+   "SkipConsistencyCheck", "SkipExtends", "SkipInclude", "SkipResolveEnvironment", "SkipDefaultValues", "Interpolate",
+   "discardEnvFiles", "projectName", "projectNameImperativelySet", "Profiles", "ResourceLoaders", "KnownExtensions",
+   "Listeners"]
+
+/-- `Options.clone()`: the composite literal, field by field -/
+def Opts.clone (o : Opts) : Opts :=
+  { skipValidation := o.skipValidation, skipInterpolation := o.skipInterpolation,
+    skipNormalization := o.skipNormalization, resolvePaths := o.resolvePaths,
+    convertWindowsPaths := o.convertWindowsPaths, skipConsistencyCheck := o.skipConsistencyCheck,
+    skipExtends := o.skipExtends, skipInclude := o.skipInclude,
+    skipResolveEnvironment := o.skipResolveEnvironment, skipDefaultValues := o.skipDefaultValues,
+    interpolate := o.interpolate, discardEnvFiles := o.discardEnvFiles, projectName := o.projectName,
+    projectNameImperativelySet := o.projectNameImperativelySet, profiles := o.profiles,
+    resourceLoaders := o.resourceLoaders, knownExtensions := o.knownExtensions, listeners := o.listeners }
+
+/-- `loadOptions` of `ApplyInclude`: the clone with `ResolvePaths`, `SkipNormalization`, `SkipConsistencyCheck` forced,
+its own resource loaders (`ld`: the remote ones + a local loader of the included project directory) and its own
+interpolation (`ip`: same substitution and casts, lookup in the included project's environment) -/
+def Opts.forInclude (o : Opts) (ld ip : Nat) : Opts :=
+  { o.clone with resolvePaths := true, skipNormalization := true, skipConsistencyCheck := true,
+                 resourceLoaders := ld, interpolate := ip }
+
+/-- the value of a flag by its Go name (what the correspondence stream reads back by reflection) -/
+def Opts.flag (o : Opts) : String → Option Bool
+  | "SkipValidation" => some o.skipValidation
+  | "SkipInterpolation" => some o.skipInterpolation
+  | "SkipNormalization" => some o.skipNormalization
+  | "ResolvePaths" => some o.resolvePaths
+  | "ConvertWindowsPaths" => some o.convertWindowsPaths
+  | "SkipConsistencyCheck" => some o.skipConsistencyCheck
+  | "SkipExtends" => some o.skipExtends
+  | "SkipInclude" => some o.skipInclude
+  | "SkipResolveEnvironment" => some o.skipResolveEnvironment
+  | "SkipDefaultValues" => some o.skipDefaultValues
+  | "discardEnvFiles" => some o.discardEnvFiles
+  | "projectNameImperativelySet" => some o.projectNameImperativelySet
+  | _ => none
+
 /-! ## `types.IncludeConfig` and `loadIncludeConfig` -/
 
 structure IncCfg where
